@@ -269,6 +269,78 @@ def r_leg_link(ck: Checker) -> None:
     (ck.holds if not bad else ck.violation)("R-LEG-LINK", dt, dt.node, what, **({"evaluations": len(lv)} if not bad else {"construct": f"detach: {bad}"}))
 
 
+def _continuation(fn: ast.FunctionDef, target: ast.stmt) -> list[ast.stmt]:
+    """Statements executed (normally) after ``target``: the rest of its block, then the rest of every enclosing block."""
+    def find(block: list[ast.stmt]) -> list[ast.stmt] | None:
+        for i, st in enumerate(block):
+            if st is target:
+                return list(block[i + 1:])
+            subs: list[tuple[list[ast.stmt], list[ast.stmt]]] = []
+            if isinstance(st, ast.If):
+                subs = [(st.body, []), (st.orelse, [])]
+            elif isinstance(st, ast.Try):
+                subs = [(st.body, list(st.orelse) + list(st.finalbody)), (st.orelse, list(st.finalbody)), (st.finalbody, [])]
+                for h in st.handlers:
+                    subs.append((h.body, list(st.finalbody)))
+            elif isinstance(st, ast.With):
+                subs = [(st.body, [])]
+            elif isinstance(st, (ast.For, ast.While)):
+                for b in (st.body, st.orelse):
+                    if find(b) is not None:
+                        raise Unsupported("id rewritten inside a loop", st)
+            for b, extra in subs:
+                r = find(b)
+                if r is not None:
+                    return r + extra + list(block[i + 1:])
+        return None
+    r = find(fn.body)
+    if r is None:
+        raise Unsupported("statement not found in its function", target)
+    return r
+
+
+def r_leg_rekey(ck: Checker) -> None:
+    """Children name their parent by *id*: when the id of an existing node V is rewritten, the children of V must be pointed at the
+    new id (V._attach / V.attach / V._attach_inner do it, or an explicit loop) on every path that completes normally."""
+    n_sites = 0
+    for f in ck.repo.functions([ck.repo.mod(LNODE)]):
+        fn = f.node
+        sites = [st for st in walk_body(fn.body) if isinstance(st, ast.Expr) and isinstance(st.value, ast.Call) and dotted(st.value.func) in ("object.__setattr__", "setattr")
+                 and len(st.value.args) == 3 and isinstance(st.value.args[1], ast.Constant) and st.value.args[1].value == "id"]
+        for st in sites:
+            v = norm(st.value.args[0])
+            if v == "self" and f.qualname.endswith(".__post_init__"):
+                continue  # the node under construction: its children are linked by the attach that ends __post_init__
+            in_handler = any(st in list(walk_body(h.body)) for t in walk_body(fn.body) if isinstance(t, ast.Try) for h in t.handlers)
+            if in_handler:
+                continue  # compensation on a failure exit is C19's subject
+            n_sites += 1
+            what = f"{f.qualname}: after the id of {v} is rewritten its children are re-linked ({v}._attach…) on every normally completing path"
+            cont = _continuation(fn, st)
+            leaves = decision_tree(cont, try_as_body=True, max_atoms=14)
+            bad = None
+            for lf in leaves:
+                if lf.outcome == "raise":
+                    continue
+                ok = False
+                for x in lf.stmts:
+                    for c in ast.walk(x):
+                        if isinstance(c, ast.Call) and isinstance(c.func, ast.Attribute) and norm(c.func.value) == v and c.func.attr in ("_attach", "attach", "_attach_inner"):
+                            ok = True
+                        if isinstance(c, ast.Call) and isinstance(c.func, ast.Attribute) and c.func.attr == "_set_parent" and c.args and norm(c.args[0]) == v:
+                            ok = True
+                if not ok:
+                    cond = ", ".join(f"{k}={val}" for k, val in lf.assign.items()) or "every path"
+                    bad = f"{f.qualname}: on the path [{cond}] the id of {v} is rewritten but its children keep the old parent id ({v}._attach is not called): child.parent no longer resolves to {v}"
+                    break
+            if bad:
+                ck.violation("R-LEG-LINK", f, st, what, evaluations=len(leaves), construct=bad)
+            else:
+                ck.holds("R-LEG-LINK", f, st, what, evaluations=len(leaves))
+    if n_sites < 2:
+        raise Unsupported(f"only {n_sites} id rewrites of existing legacy nodes found (2 confirmed by hand in replace_with)", None)
+
+
 def r_leg_digest(ck: Checker) -> None:
     f = ck.repo.func(LNODE, f"{CLS}._set_content_id")
     sinks = [s for s in contributions(f) if s.attr == "content_id"]
@@ -330,6 +402,7 @@ def run(ck: Checker) -> None:
     ck.guard("R-LEG-IDENT", lambda: r_leg_ident(ck))
     ck.guard("R-LEG-PROPAGATE", lambda: r_leg_propagate(ck))
     ck.guard("R-LEG-LINK", lambda: r_leg_link(ck))
+    ck.guard("R-LEG-LINK", lambda: r_leg_rekey(ck))
     ck.guard("R-LEG-DIGEST", lambda: r_leg_digest(ck))
     from .c20 import r_legacy_presence, r_xpath_spell
     ck.guard("R-LEG-XPATH-SPELL", lambda: r_xpath_spell(ck))
